@@ -84,7 +84,7 @@ func (pc *pipeCorr) add(ctx *Ctx, d *Doc, root *html.Node, skipUnlikely bool, re
 	for _, e := range els {
 		a := distiller.VerifElementAtoms(e)
 		id := d.ID[e]
-		fmt.Fprintf(&sb, " %d %s %s %s %s %s %d %s", id, hx(a.StyleDisplay), b01(a.VisHidden), b01(a.Byline), b01(a.Unlikely), b01(a.Maybe), embedOf[id], b01(tableOf[id]))
+		fmt.Fprintf(&sb, " %d %s %s %s %s %s %d %s %s", id, hx(a.StyleDisplay), b01(a.VisHidden), b01(a.Byline), b01(a.Unlikely), b01(a.Maybe), embedOf[id], b01(tableOf[id]), b01(distiller.VerifIsForeignRawText(e)))
 	}
 	fmt.Fprintf(&sb, " %d", len(txts))
 	for _, t := range txts {
